@@ -31,7 +31,17 @@ def gen(rng, tier):
         focus["fix"] = True
     if rng.random() < 0.4:
         focus["res_abs"] = True
-    spec = C.maybe_from_json(rng, C.maybe_history(rng, C.forward_spec(rng, tier, focus), 0.3))
+    spec = C.forward_spec(rng, tier, focus)
+    nfs_ = [t for t in spec["model"]["tasks"] if t.get("nf") and not t.get("auto")]
+    if nfs_ and rng.random() < 0.25:
+        # a sub-project task that is not automatic: it takes workers and facilities like any other task
+        t_ = rng.choice(nfs_)
+        t_["sub"] = {"file": None, "unit_s": 60}
+        t_["auto"] = False
+        spec = C.maybe_history(rng, spec, 0.8, reload_prob=0.7)
+    else:
+        spec = C.maybe_history(rng, spec, 0.3)
+    spec = C.maybe_from_json(rng, spec)
     if spec.get("history") is None and not spec.get("from_json") and rng.random() < 0.06:
         # freshly built objects simulated without the state initialisation (a hand-prepared in-progress project)
         spec["cfg"]["init_state"] = False
